@@ -54,6 +54,6 @@ Spec == Init /\ [][Next]_vars
 
 AtEnd == l = NRec + 1
 Brief == IF AtEnd THEN [l |-> l, bad |-> bad, nvec |-> nvec, nrej |-> nrej] ELSE [l |-> l]
-C16 == AtEnd => \A b \in bad : b[1] # "C16"
+C16 == AtEnd => NoneFor(bad, "C16")
 Report == AtEnd => PrintT(<<"CODEC-REPORT", nvec, nrej>>)
 ====================================================================================
